@@ -502,9 +502,12 @@ fn msg_att_envelope(i: &[u8]) -> IResult<&[u8], AttributeValue> {
 }
 
 fn msg_att_internal_date(i: &[u8]) -> IResult<&[u8], AttributeValue> {
-    map(
+    map_res(
         preceded(tag_no_case("INTERNALDATE "), nstring_utf8),
-        |date| AttributeValue::InternalDate(Cow::Borrowed(date.unwrap())),
+        |date| {
+            date.map(|d| AttributeValue::InternalDate(Cow::Borrowed(d)))
+                .ok_or(())
+        },
     )(i)
 }
 
